@@ -419,11 +419,10 @@ func checkC09(c *Ctx, r *Report) {
 						rets = append(rets, ret)
 					}
 				}
-				r6.guard(f, "return envelope", rets, "len(validAddrs(..)) != 0", edgeCmp(func(b *ssa.BinOp) bool {
-					k, isC := constInt(b.Y)
-					call, _ := b.X.(*ssa.Call)
-					return isC && k == 0 && b.Op == token.EQL && call != nil && calleeKey(call) == "builtin.len" && isResultOfCall(call.Call.Args[0], 0, memP+".validAddrs") != nil
-				}, false), nil)
+				r6.guard(f, "return envelope", rets, "len(validAddrs(..)) != 0", edgeIntBound(func(v ssa.Value) bool {
+					call, _ := v.(*ssa.Call)
+					return call != nil && calleeKey(call) == "builtin.len" && isResultOfCall(call.Call.Args[0], 0, memP+".validAddrs") != nil
+				}, 1, intInf, true), nil)
 			}
 		}
 	}
@@ -527,10 +526,7 @@ func checkC09(c *Ctx, r *Report) {
 	}
 	if f := r7.need(mab("maybeDeleteSignedPeerRecordUnlocked")); f != nil {
 		dels := findInstrs(f, func(in ssa.Instruction) bool { return isCallTo(in, "builtin.delete") && isFieldWrite(in, mabT+".signedPeerRecords") })
-		r7.guard(f, "delete(signedPeerRecords, p)", dels, "len(addrs[p]) == 0", edgeCmp(func(b *ssa.BinOp) bool {
-			k, isC := constInt(b.Y)
-			return isC && k == 0 && b.Op == token.EQL
-		}, true), nil)
+		r7.guard(f, "delete(signedPeerRecords, p)", dels, "len(addrs[p]) == 0", edgeIntBound(isLenCall, 0, 0, true), nil)
 	}
 	if f := r7.need(mab("ClearAddrs")); f != nil {
 		dels := findInstrs(f, func(in ssa.Instruction) bool { return isCallTo(in, "builtin.delete") && isFieldWrite(in, mabT+".signedPeerRecords") })
@@ -545,11 +541,10 @@ func checkC09(c *Ctx, r *Report) {
 				rets = append(rets, ret)
 			}
 		}
-		r7.guard(f, "return envelope", rets, "len(pr.Addrs) != 0", edgeCmp(func(b *ssa.BinOp) bool {
-			k, isC := constInt(b.Y)
-			call, _ := b.X.(*ssa.Call)
-			return isC && k == 0 && b.Op == token.EQL && call != nil && calleeKey(call) == "builtin.len" && derivesFrom(call.Call.Args[0], isLoadOfField(pbRec+".Addrs"))
-		}, false), nil)
+		r7.guard(f, "return envelope", rets, "len(pr.Addrs) != 0", edgeIntBound(func(v ssa.Value) bool {
+			call, _ := v.(*ssa.Call)
+			return call != nil && calleeKey(call) == "builtin.len" && derivesFrom(call.Call.Args[0], isLoadOfField(pbRec+".Addrs"))
+		}, 1, intInf, true), nil)
 	}
 
 	// ---- R8 ---------------------------------------------------------------
